@@ -3,6 +3,7 @@ C01 — single-object steps: the model's `step1` / `step1Ipv` agree with `Spec.a
 valid operation, and the result stays within the capacity.
 -/
 import TetlProofs.C01.Members3
+import TetlProofs.C01.Alias
 namespace Tetl.C01
 open Tetl
 
@@ -17,10 +18,28 @@ theorem eraseRange_length (l : List Nat) (f t : Nat) (h1 : f ≤ t) (h2 : t ≤ 
 theorem resize_length (l : List Nat) (n x : Nat) : (Spec.resize l n x).length = n := by
   simp [Spec.resize]; omega
 
+theorem withElem_lt {l : List Nat} {i : Nat} (h : i < l.length) (f : Nat → List Nat × Out) :
+    Spec.withElem l i f = f l[i] := by
+  simp [Spec.withElem, h]
+
+/-- the element's `operator==` is the equality of the values, for every element kind of the harness -/
+theorem eqOf_beq (k : Kind) (x y : Nat) : eqOf k x y = (x == y) := by
+  cases k <;> simp only [eqOf]
+  by_cases h : x = y
+  · subst h; simp
+  · have hb : (x == y) = false := by simpa using h
+    rw [hb]
+    by_cases h1 : x / 2 = y / 2
+    · have h2 : ¬ x % 2 = y % 2 := by omega
+      simp [h2]
+    · simp [h1]
+
 /-- operations of `static_vector` on one object -/
 def unarySv : Op → Bool
   | .tryPush .. => false
   | .unchecked .. => false
+  | .tryPushA .. => false
+  | .uncheckedA .. => false
   | op => (isBinary op).isNone
 
 theorem step1_refines {cap : Nat} (kind : Kind) (op : Op) (d : V) (hc : cap < 2 ^ 64) (hcap : d.length ≤ cap)
@@ -85,7 +104,9 @@ theorem step1_refines {cap : Nat} (kind : Kind) (op : Op) (d : V) (hc : cap < 2 
     simp only [valid1, decide_eq_true_eq] at hv
     exact ⟨by simp [step1, Spec.apply1, ctorRange_eq xs hc hv], by simp [Spec.apply1]; omega⟩
   | eraseVal x =>
-    refine ⟨by simp [step1, Spec.apply1, eraseIf_eq kind d _ hc hcap], ?_⟩
+    have hp : (fun v => eqOf kind v x) = (fun v => v == x) := by
+      funext v; exact eqOf_beq kind v x
+    refine ⟨by simp [step1, Spec.apply1, hp, eraseIf_eq kind d _ hc hcap], ?_⟩
     simp only [Spec.apply1]
     exact Nat.le_trans (List.length_filter_le _ _) hcap
   | eraseIf m r =>
@@ -93,6 +114,29 @@ theorem step1_refines {cap : Nat} (kind : Kind) (op : Op) (d : V) (hc : cap < 2 
     simp only [Spec.apply1]
     exact Nat.le_trans (List.length_filter_le _ _) hcap
   | dump => exact ⟨by simp [step1, Spec.apply1], by simpa [Spec.apply1] using hcap⟩
+  | pushA ov i =>
+    simp only [valid1, Bool.and_eq_true, decide_eq_true_eq] at hv
+    refine ⟨?_, by simp [Spec.apply1, withElem_lt hv.2]; omega⟩
+    simp only [step1, Spec.apply1, withElem_lt hv.2]
+    split <;> simp [emplaceBackA_elem hc hv.1 hv.2, pushBackA_elem hc hv.1 hv.2]
+  | pushTop ov =>
+    simp only [valid1, Bool.and_eq_true, decide_eq_true_eq] at hv
+    have hi : d.length - 1 < d.length := by omega
+    refine ⟨?_, by simp [Spec.apply1, withElem_lt hi]; omega⟩
+    simp [step1, Spec.apply1, withElem_lt hi, pushTop_eq d _ hc hv.1 hv.2]
+  | insertA ov pos i =>
+    simp only [valid1, Bool.and_eq_true, decide_eq_true_eq] at hv
+    refine ⟨?_, by simp [Spec.apply1, withElem_lt hv.2, insertAt_length d pos _ hv.1.2]; omega⟩
+    simp only [step1, Spec.apply1, withElem_lt hv.2]
+    split <;> simp [insertCrefA_elem d pos i hc hv.1.2 hv.1.1 hv.2, emplaceA_elem d pos i hc hv.1.2 hv.1.1 hv.2]
+  | insertFillA pos n i =>
+    simp only [valid1, Bool.and_eq_true, decide_eq_true_eq] at hv
+    exact ⟨by simp [step1, Spec.apply1, withElem_lt hv.2, insertFillA_elem d pos n i hc hv.1.1 hv.1.2 hv.2],
+      by simp [Spec.apply1, withElem_lt hv.2, insertAt_length d pos _ hv.1.1]; omega⟩
+  | resizeValA n i =>
+    simp only [valid1, Bool.and_eq_true, decide_eq_true_eq] at hv
+    exact ⟨by simp [step1, Spec.apply1, withElem_lt hv.2, resizeValA_elem d n i hc hcap hv.1 hv.2],
+      by simp [Spec.apply1, withElem_lt hv.2, resize_length]; omega⟩
   | copyCtor j => simp [unarySv, isBinary] at hu
   | moveCtor j => simp [unarySv, isBinary] at hu
   | copyAssign j => simp [unarySv, isBinary] at hu
@@ -101,11 +145,15 @@ theorem step1_refines {cap : Nat} (kind : Kind) (op : Op) (d : V) (hc : cap < 2 
   | cmp j => simp [unarySv, isBinary] at hu
   | tryPush ov x => simp [unarySv] at hu
   | unchecked ov x => simp [unarySv] at hu
+  | tryPushA ov i => simp [unarySv] at hu
+  | uncheckedA ov i => simp [unarySv] at hu
 
 /-- operations of `inplace_vector` on one object -/
 def unaryIpv : Op → Bool
   | .tryPush .. => true
   | .unchecked .. => true
+  | .tryPushA .. => true
+  | .uncheckedA .. => true
   | .pop => true
   | .clear => true
   | .dump => true
@@ -126,6 +174,19 @@ theorem step1Ipv_refines {cap : Nat} (op : Op) (d : V) (hc : cap < 2 ^ 64) (hcap
   | unchecked ov x =>
     simp only [valid1, decide_eq_true_eq] at hv
     exact ⟨by simp [step1Ipv, Spec.apply1, ipvUnchecked_eq d x hc hv], by simp [Spec.apply1]; omega⟩
+  | tryPushA ov i =>
+    simp only [valid1, decide_eq_true_eq] at hv
+    refine ⟨?_, ?_⟩
+    · simp only [step1Ipv, Spec.apply1, withElem_lt hv, ipvTryA_elem d i hc hcap hv, ok_bind]
+      split <;> rfl
+    · simp only [Spec.apply1, withElem_lt hv]
+      split
+      · exact hcap
+      · simp; omega
+  | uncheckedA ov i =>
+    simp only [valid1, Bool.and_eq_true, decide_eq_true_eq] at hv
+    exact ⟨by simp [step1Ipv, Spec.apply1, withElem_lt hv.2, ipvUncheckedA_elem d i hc hv.1 hv.2],
+      by simp [Spec.apply1, withElem_lt hv.2]; omega⟩
   | pop =>
     simp only [valid1, decide_eq_true_eq] at hv
     exact ⟨by simp [step1Ipv, Spec.apply1, ipvPop_eq d hc hcap hv], by simp [Spec.apply1]; omega⟩
@@ -153,5 +214,10 @@ theorem step1Ipv_refines {cap : Nat} (op : Op) (d : V) (hc : cap < 2 ^ 64) (hcap
   | moveAssign j => simp [unaryIpv] at hu
   | swap j => simp [unaryIpv] at hu
   | cmp j => simp [unaryIpv] at hu
+  | pushA ov i => simp [unaryIpv] at hu
+  | pushTop ov => simp [unaryIpv] at hu
+  | insertA ov pos i => simp [unaryIpv] at hu
+  | insertFillA pos n i => simp [unaryIpv] at hu
+  | resizeValA n i => simp [unaryIpv] at hu
 
 end Tetl.C01
